@@ -405,3 +405,165 @@ Proof.
   - destruct Hr as (L2 & N2).
     do 3 eexists. split; [reflexivity|]. split; [split; [lia|exact N2]|]. split; [exact Cst|]. repeat split.
 Qed.
+
+(* ---------- look_init / diff_init ---------- *)
+Lemma first_nul s n : nulat s n -> exists m, m <= n /\ cstring s m.
+Proof.
+  intros Hn. destruct (scan_ok (fun b => negb (b =? 0)) s n 0 Hn) as [j [_ [Hr [[b [Hb Pb]] Hm]]]]; [lia|reflexivity|].
+  exists j. split; [lia|]. split.
+  - apply negb_false_iff, N.eqb_eq in Pb. now subst b.
+  - intros k Hk. destruct (Hm k) as [c [Hc Pc]]; [lia|]. exists c. split; [exact Hc|].
+    apply negb_true_iff, N.eqb_neq in Pc. exact Pc.
+Qed.
+
+Lemma match_lit_safe l : no_nul l -> forall s n i, nulat s n -> i <= n ->
+  exists r, match_lit l s i = Ok r /\ match r with Some j => i <= j <= n | None => True end.
+Proof.
+  intros Hl. induction Hl as [|y l Hy Hl IH]; intros s n i Hn Hi; cbn [match_lit].
+  - eexists. split; [reflexivity|]. cbn. lia.
+  - destruct (rdr_ok s n i Hn Hi) as [x [Ex Rx]]. rewrite Ex. cbn [bind].
+    destruct (N.eqb_spec x y) as [->|].
+    + assert (i <> n) by (eapply nulat_ne; eauto).
+      destruct (IH s n (N.succ i) Hn) as [r [Er Hr]]; [lia|]. exists r. split; [exact Er|].
+      destruct r; [lia|exact I].
+    + eexists. split; [reflexivity|exact I].
+Qed.
+
+Lemma scan_u_safe s m i : cstring s m -> i <= m ->
+  exists r, scan_u s i = Ok r /\ match r with Some (_, e) => i <= e <= m | None => True end.
+Proof.
+  intros Hs Hi. unfold scan_u. destruct (strtoul_ok s m i 10 Hs Hi) as [v [e [E [He _]]]].
+  rewrite E. cbn [bind]. destruct (e =? i); eexists; (split; [reflexivity|]); [exact I|cbn; lia].
+Qed.
+
+Lemma cstring_nulat s m : cstring s m -> nulat s m.
+Proof. intros [H _]. exact H. Qed.
+
+Lemma scan_version_safe s m i : cstring s m -> i <= m -> exists r, scan_version s i = Ok r.
+Proof.
+  intros Hs Hi. pose proof (cstring_nulat _ _ Hs) as Hn. unfold scan_version.
+  destruct (match_lit_safe (bytes_of_string "<topology") (no_nul_lit "<topology" eq_refl) s m i Hn Hi) as [r1 [E1 H1]].
+  rewrite E1. cbn [bind]. destruct r1 as [i1|]; [|eauto].
+  destruct (scan_ok isspace s m i1 Hn) as [i2 [E2 [H2 _]]]; [lia|reflexivity|]. rewrite E2. cbn [bind].
+  destruct (match_lit_safe (bytes_of_string "version=""") (no_nul_lit "version=""" eq_refl) s m i2 Hn) as [r3 [E3 H3]]; [lia|].
+  rewrite E3. cbn [bind]. destruct r3 as [i3|]; [|eauto].
+  destruct (scan_u_safe s m i3 Hs) as [u1 [Eu1 Hu1]]; [lia|]. rewrite Eu1. cbn [bind].
+  destruct u1 as [[major i4]|]; [|eauto].
+  assert (Hdot : no_nul [46]) by (repeat constructor; discriminate).
+  destruct (match_lit_safe [46] Hdot s m i4 Hn) as [r5 [E5 H5]]; [lia|].
+  rewrite E5. cbn [bind]. destruct r5 as [i5|]; [|eauto].
+  destruct (scan_u_safe s m i5 Hs) as [u2 [Eu2 Hu2]]; [lia|]. rewrite Eu2. cbn [bind].
+  destruct u2 as [[minor i6]|]; eauto.
+Qed.
+
+Lemma skip_headers_safe fuel : forall s m i, nulat s m -> i <= m -> m < N.of_nat fuel + i ->
+  exists r, skip_headers fuel s i = Ok r /\ match r with Some j => j <= m | None => True end.
+Proof.
+  induction fuel as [|f IH]; intros s m i Hn Hi Hf; [lia|]. cbn [skip_headers].
+  destruct (has_prefix_safe "<?xml " s m i eq_refl Hn Hi) as [a [Ea _]]. rewrite Ea. cbn [bind].
+  assert (exists b, (if a then Ok true else has_prefix "<!DOCTYPE " s i) = Ok b) as [b Eb].
+  { destruct a; [eauto|]. destruct (has_prefix_safe "<!DOCTYPE " s m i eq_refl Hn Hi) as [b [Eb _]]. eauto. }
+  rewrite Eb. cbn [bind]. destruct b; cbn [negb].
+  2:{ eexists. split; [reflexivity|]. exact Hi. }
+  destruct (strchr_ok2 s m i c_nl Hn Hi) as [r [E Hr]]. rewrite E. cbn [bind].
+  destruct r as [en|]; [|eexists; split; [reflexivity|exact I]].
+  destruct Hr as [Hen Hc]. assert (en <> m) by (eapply nulat_ne; eauto; discriminate).
+  apply IH; [exact Hn|lia|lia].
+Qed.
+
+Lemma look_init_safe s n : wfb s n ->
+  exists r, look_init s = Ok r /\
+    match r with LiOk _ _ st => cur_ok n st /\ tagname st <> TNull /\ attrbuffer st = None /\ closed st = false | LiFail => True end.
+Proof.
+  intros [Hl Hn]. destruct (first_nul s n Hn) as [m [Hm Hs]]. pose proof (cstring_nulat _ _ Hs) as Nm.
+  unfold look_init.
+  destruct (skip_headers_safe (S (length s)) s m 0 Nm) as [h [Eh Hh]]; [lia|unfold len in Hl; lia|].
+  rewrite Eh. cbn [bind]. destruct h as [b|]; [|eexists; split; [reflexivity|exact I]].
+  destruct (scan_version_safe s m b Hs Hh) as [v Ev]. rewrite Ev. cbn [bind].
+  destruct v as [[major minor]|].
+  - destruct (strchr_ok2 s m b c_gt Nm Hh) as [r [E Hr]]. rewrite E. cbn [bind].
+    destruct r as [en|]; [|eexists; split; [reflexivity|exact I]].
+    destruct Hr as [Hen Hc]. assert (en <> m) by (eapply nulat_ne; eauto; discriminate).
+    eexists. split; [reflexivity|]. cbn. repeat split; cbn; try (intros; discriminate); try reflexivity; lia.
+  - destruct (has_prefix_safe "<topology>" s m b eq_refl Nm Hh) as [t [Et Ht]]. rewrite Et. cbn [bind].
+    destruct t.
+    { specialize (Ht eq_refl). change (len (bytes_of_string "<topology>")) with 10 in Ht.
+      eexists. split; [reflexivity|]. cbn. repeat split; cbn; try (intros; discriminate); try reflexivity; lia. }
+    destruct (has_prefix_safe "<root>" s m b eq_refl Nm Hh) as [t [Et' Ht']]. rewrite Et'. cbn [bind].
+    destruct t; [|eexists; split; [reflexivity|exact I]].
+    specialize (Ht' eq_refl). change (len (bytes_of_string "<root>")) with 6 in Ht'.
+    eexists. split; [reflexivity|]. cbn. repeat split; cbn; try (intros; discriminate); try reflexivity; lia.
+Qed.
+
+Lemma diff_init_safe s n : wfb s n ->
+  exists r, diff_init s = Ok r /\ match r with Some st => cur_ok n st /\ closed st = false | None => True end.
+Proof.
+  intros [Hl Hn]. unfold diff_init.
+  destruct (skip_headers_safe (S (length s)) s n 0 Hn) as [h [Eh Hh]]; [lia|unfold len in Hl; lia|].
+  rewrite Eh. cbn [bind]. destruct h as [b|]; eexists; (split; [reflexivity|]); [|exact I].
+  cbn. repeat split; cbn; try (intros; discriminate); try reflexivity. exact Hh.
+Qed.
+
+(* close_child keeps the cursors inside *)
+Lemma close_child_ok n p c : cur_ok n p -> cur_ok n c -> cur_ok n (close_child p c).
+Proof. intros (Hp1 & Hp2 & Hp3) (Hc1 & _ & _). repeat split; cbn; assumption. Qed.
+
+(* ---------- the statements exported to Props/Properties_C06.v ---------- *)
+(* Every entry point, from any block whose last byte is NUL and any state whose cursors are inside the
+   block, returns (no Oob read or write, no fuel exhaustion) a block of the same size whose last byte
+   is still NUL and a state whose cursors are still inside: the hypotheses are an invariant, so the
+   statement extends to every sequence of calls that respects the calling protocol
+   (close_tag needs a tag name; close_content comes after a get_content that returned 0 or 1). *)
+Definition entry_points_safe (s : list N) (n : N) (st : nstate) : Prop :=
+  (exists s' st' r, next_attr s st = Ok (s', st', r) /\ wfb s' n /\ cur_ok n st') /\
+  (exists s' r, find_child s st = Ok (s', r) /\ wfb s' n /\
+                match r with FcChild c _ => cur_ok n c /\ tagname c <> TNull | _ => True end) /\
+  (tagname st <> TNull -> exists s' st' b, close_tag s st = Ok (s', st', b) /\ wfb s' n /\ cur_ok n st') /\
+  (forall e, exists s' st' r, get_content s st e = Ok (s', st', r) /\ wfb s' n /\ cur_ok n st' /\
+             (r <> GcErr -> exists s'', close_content s' st' = Ok s'' /\ wfb s'' n)).
+
+Lemma xml_lex_safe_lemma s n : wfb s n ->
+  (exists r, look_init s = Ok r /\
+     match r with LiOk _ _ st => cur_ok n st /\ tagname st <> TNull | LiFail => True end) /\
+  (exists r, diff_init s = Ok r /\ match r with Some st => cur_ok n st | None => True end) /\
+  (forall st, cur_ok n st -> entry_points_safe s n st).
+Proof.
+  intros W. split; [|split].
+  - destruct (look_init_safe s n W) as [r [E H]]. exists r. split; [exact E|]. destruct r; [exact I|tauto].
+  - destruct (diff_init_safe s n W) as [r [E H]]. exists r. split; [exact E|]. destruct r; [tauto|exact I].
+  - intros st C. unfold entry_points_safe. split; [|split; [|split]].
+    + destruct (next_attr_safe s n st W C) as (s' & st' & r & E & W' & C' & _). eauto 8.
+    + destruct (find_child_safe s n st W C) as (s' & r & E & W' & H). exists s', r. split; [exact E|]. split; [exact W'|].
+      destruct r as [| |c tg]; try exact I. destruct H as (Cc & _ & Tn & _). split; [exact Cc|]. rewrite Tn. discriminate.
+    + intros Hn. destruct (close_tag_safe s n st W C Hn) as (s' & st' & b & E & W' & C' & _). eauto 8.
+    + intros e. destruct (get_content_safe s n st e W C) as (s' & st' & r & E & W' & C' & Ecl & H).
+      exists s', st', r. split; [exact E|]. split; [exact W'|]. split; [exact C'|]. intros Hr.
+      apply close_content_safe; [exact W'|]. destruct r; [congruence|left; congruence|right; tauto].
+Qed.
+
+(* progress: a successful call moves its cursor strictly forward, and cursors stay <= n, so at most
+   n + 1 attributes can be read from a tag and at most n + 1 children found below a state:
+   every client loop over these calls is bounded by the size of the block *)
+Lemma xml_lex_progress_lemma s n st : wfb s n -> cur_ok n st ->
+  (forall s' st' nm vl, next_attr s st = Ok (s', st', Some (nm, vl)) ->
+     exists a a', attrbuffer st = Some a /\ attrbuffer st' = Some a' /\ a < a' <= n) /\
+  (forall s' c tg, find_child s st = Ok (s', FcChild c tg) -> tagbuffer st < tagbuffer c <= n).
+Proof.
+  intros W C. split.
+  - intros s' st' nm vl E. destruct (next_attr_safe s n st W C) as (s2 & st2 & r & E2 & _ & C2 & _ & _ & _ & H).
+    rewrite E in E2. injection E2 as <- <- <-. destruct H as (_ & _ & a & a' & Ea & Ea' & Hlt).
+    exists a, a'. repeat split; try assumption. destruct C2 as (_ & Ha & _). apply Ha. exact Ea'.
+  - intros s' c tg E. destruct (find_child_safe s n st W C) as (s2 & r & E2 & _ & H).
+    rewrite E in E2. injection E2 as <- <-. destruct H as ((Hc & _) & _ & _ & Hlt). lia.
+Qed.
+
+(* the calling protocol of close_content is needed: writing the '<' back at a cursor that was not
+   set by get_content can overwrite the final NUL (the defect of hwloc__xml_import_userdata fixed in
+   the caller by /repo commit 8aa0f87) *)
+Lemma close_content_needs_protocol_lemma :
+  exists s n st, wfb s n /\ cur_ok n st /\ exists s', close_content s st = Ok s' /\ ~ wfb s' n.
+Proof.
+  exists [60; 0], 1, (mkState 1 None (TLit (cstr "userdata")) false).
+  split; [split; reflexivity|]. split; [repeat split; cbn; try (intros; discriminate); lia|].
+  eexists. split; [reflexivity|]. intros [_ H]. discriminate H.
+Qed.
